@@ -73,4 +73,6 @@ def thorough(prop: str, root: str, rc: int, evidence_dir) -> int:
         from selftest.harness import run_catalogue
     except ModuleNotFoundError:
         return rc
-    return run_catalogue(prop, root, rc, evidence_dir)
+    rc = run_catalogue(prop, root, rc, evidence_dir)
+    from selftest.harness import run_seeded
+    return run_seeded(prop, root, rc, evidence_dir)
